@@ -404,6 +404,61 @@ func main() {
 				break
 			}
 
+			// ---- a push that lands between a wake-up that found nothing and the re-registration wakes nobody
+			// (the client is in no queue at that moment): the look after re-registering must find it
+			// (schedule point before-reenter)
+			{
+				vs := redisemu.VerifNewStore("")
+				a, p := vs.NewClient(), vs.NewClient()
+				gate := make(chan struct{})
+				parked := make(chan struct{}, 1)
+				target := a.ID()
+				redisemu.VerifSetPointHook(func(name string, id int64) {
+					if id == target && name == "before-reenter" {
+						select {
+						case parked <- struct{}{}:
+							<-gate
+						default:
+						}
+					}
+				})
+				cha := async(a, "BLPOP", "wk", "0")
+				if waitBlocked(a, time.Second) {
+					time.Sleep(2 * time.Millisecond)
+					do(p, "MULTI")
+					do(p, "RPUSH", "wk", "x")
+					do(p, "LPOP", "wk")
+					do(p, "EXEC")
+					select {
+					case <-parked:
+						do(p, "RPUSH", "wk", "y") // nobody is in the queue: nobody is woken
+						close(gate)
+						ra, ok := get(cha, 600*time.Millisecond)
+						if !ok || !strings.Contains(ra.reply, "y") {
+							fail("window", round, []string{"A: BLPOP wk 0", "P: MULTI; RPUSH wk x; LPOP wk; EXEC (A is woken in vain, parked before it re-registers)", "P: RPUSH wk y", "A: resumes"},
+								fmt.Sprintf("lost wake-up: the element pushed while the client was between its failed look and its re-registration stays in the list (LLEN %s) and the client sleeps (done=%v reply=%q)",
+									strings.TrimSpace(do(p, "LLEN", "wk")), ok, ra.reply))
+							do(p, "CLIENT", "UNBLOCK", fmt.Sprint(target))
+							get(cha, time.Second)
+						}
+						stats["reenter_window_checks"]++
+					case <-time.After(time.Second):
+						close(gate)
+						do(p, "CLIENT", "UNBLOCK", fmt.Sprint(target))
+						get(cha, time.Second)
+					}
+				} else {
+					do(p, "CLIENT", "UNBLOCK", fmt.Sprint(target))
+					get(cha, time.Second)
+				}
+				redisemu.VerifSetPointHook(nil)
+				a.Close()
+				p.Close()
+			}
+			if failures > 0 {
+				break
+			}
+
 			// ---- a waiter on several keys is woken by a push to one key and finds an element in an earlier
 			// one (both pushed in one transaction): whichever it takes, nobody may stay blocked on a list
 			// that still holds an element
